@@ -3,7 +3,7 @@ run on the Coq machine (coq/Proc) and on the real psutil over a fake /proc + rec
 
 case = {"kind": "hist", "cls": ..., "evs": [event, ...]} with events
   ["spawn", pid, start, ppid, comm] (comm optional, default "proc") ["thread", pid] (one more thread: stat field 20)
-  ["exit", pid] ["reap", pid] ["clock", d]
+  ["exit", pid] ["reap", pid] ["clock", d] ["deny", pid] / ["allow", pid] (reading /proc/<pid>/stat fails with EACCES / works)
   ["new", pid] ["popen", pid] (psutil.Popen over a stub subprocess.Popen with that pid) ["os_enter", o] ["os_exit", o]
   (o.oneshot() block entered / innermost left) ["asdict", o] (o.as_dict(attrs=["ppid"])) ["isrun", o] ["eq", a, b] ["hasheq", a, b] ["ppid", o] ["ctime", o] ["boot"] ["iter"]
   ["wait", o] (o.wait(timeout=0); fake processes are not children of the caller) ["iterstart"] (g = process_iter())
@@ -20,7 +20,7 @@ from pv.canon import Exc, T, Val, exc_name
 COQ_REQUIRE = "Proc.Run"
 COQ_DIRS = ["Proc"]
 BTIME0 = 1500000000
-KERNEL_EVENTS = ("spawn", "thread", "exit", "reap", "clock")
+KERNEL_EVENTS = ("spawn", "thread", "exit", "reap", "clock", "deny", "allow")
 IMPORT_PID = 7      # the PID psutil believes it was imported under (os.getpid() is patched during the import only):
                     # the worker is then like a forked child, and PID 7 -- its "parent" -- is an ordinary, recyclable
                     # process of the fake kernel
@@ -53,8 +53,8 @@ ASSUMPTIONS = ["the C01 delivery theorems are for calls with no kernel event bet
                "two starts of one PID never carry the same start tick (psutil's documented assumption; hypothesis wf_hist)",
                "identity float starttime/CLK_TCK is an injective image of the tick count for ticks < 2^52; the model keeps ticks",
                "CPython tuple hashing does not collide on the sampled identities",
-               "the simulated kernel never denies reading /proc/<pid>/stat: the creation-time oracle of the model is fixed to true, so "
-               "objects with _ident = (pid, None) and the 'creation time unreadable' branch of is_running() are not exercised",
+               "the theorems over well-formed histories assume /proc/<pid>/stat readable (no Deny event); objects without identity and "
+               "unreadable stat files are exercised (class no-identity) against the model and the every-history theorems only",
                "EPERM answers of the kernel (AccessDenied) and the non-Linux branches of __eq__/_get_ident/send_signal are outside the model"]
 
 
@@ -69,6 +69,7 @@ class Shadow:
         self.nextinc = 0
         self.objs = []      # [pid, start, gone, reused, inc]
         self.gens = []      # [started, done, ls, pm]
+        self.denied = set()
         self.depth = {}     # object -> depth of open oneshot blocks
         self.cppid = set()  # objects whose ppid() is memoized in the current block
         self.pmap = {}
@@ -92,7 +93,8 @@ class Shadow:
 
     def _new(self, pid, popen=False):
         if 0 <= pid < PID_MAX and pid in self.table:
-            self.objs.append([pid, self.table[pid][1], False, False, self.table[pid][0]])
+            start = None if pid in self.denied else self.table[pid][1]
+            self.objs.append([pid, start, False, False, self.table[pid][0]])
             return len(self.objs) - 1
         if popen and 0 <= pid < PID_MAX:
             self.objs.append([pid, None, True, False, None])      # child already gone: no identity, _gone
@@ -106,7 +108,10 @@ class Shadow:
         if x[0] not in self.table:
             x[2] = True
             return False
-        if self.table[x[0]][1] != x[1]:
+        other = None if x[0] in self.denied else self.table[x[0]][1]
+        if other is None and x[1] is not None:
+            return True       # creation time unreadable now: no reuse verdict
+        if other != x[1]:
             x[2] = x[3] = True
             self.reused.add(x[0])
             return False
@@ -116,6 +121,10 @@ class Shadow:
         k = e[0]
         if k == "spawn":
             self.spawn(e[1], e[2])
+        elif k == "deny":
+            self.denied.add(e[1])
+        elif k == "allow":
+            self.denied.discard(e[1])
         elif k == "exit":
             if e[1] in self.table:
                 self.table[e[1]][2] = True
@@ -245,7 +254,10 @@ def gen_history(rng, n_events, flavour):
             a, b = sh.objs[e[1]], sh.objs[e[2]]
             if e[1] != e[2] and a[0] != b[0] and a[1] is not None and a[1] == b[1]:
                 feats.add("eq-other-pid-same-start")
-            if a[1] is None or b[1] is None:
+            if (a[1] is None and not a[2]) or (b[1] is None and not b[2]) or (a[1] is None and a[4] is not None) \
+                    or (b[1] is None and b[4] is not None):
+                feats.add("no-identity")
+            elif a[1] is None or b[1] is None:
                 feats.add("popen-gone-child")
             if e[1] != e[2] and a[0] == b[0] and None not in (a[1], b[1]) and abs(a[1] - b[1]) == 1:
                 feats.add("eq-adjacent-ticks")
@@ -359,6 +371,59 @@ def gen_history(rng, n_events, flavour):
         emit(["race", o, gen_setter(rng), window(o)])
         if rng.random() < 0.6:
             emit(rng.choice([["isrun", o], ["set", o, gen_setter(rng)], ["ppid", o]]))
+
+    def blind_motif():
+        # an object built while the stat file of its PID cannot be read (no identity); hash before / after the
+        # file becomes readable and is_running() is called; PID reuse in between; comparison with fresh objects
+        if sh.table and rng.random() < 0.6:
+            pid = rng.choice(sorted(sh.table))
+        else:
+            free = sh.free_pids()
+            if not free:
+                return
+            pid = rng.choice(free)
+            spawn_some(pid)
+            if pid not in sh.table:
+                return
+        regular = None
+        if rng.random() < 0.4:
+            emit(["new", pid])
+            regular = len(sh.objs) - 1
+        emit(["deny", pid])
+        emit(["new", pid] if rng.random() < 0.75 else ["popen", pid])
+        x = len(sh.objs) - 1
+        feats.add("no-identity")
+        emit(["hasheq", x, x])
+        for _ in range(rng.choice([0, 1, 2])):
+            emit(rng.choice([["isrun", x], ["ppid", x], ["ctime", x], ["asdict", x], ["eqother", x, "ident"],
+                             ["isrun", regular if regular is not None else x]]))
+        if rng.random() < 0.5:
+            emit(["reap", pid])
+            if rng.random() < 0.85:
+                spawn_some(pid)
+            if rng.random() < 0.5:
+                emit(["isrun", x])
+        if pid in sh.table and rng.random() < 0.4:
+            emit(["new", pid])
+            emit(["eq", x, len(sh.objs) - 1])
+            emit(["hasheq", x, len(sh.objs) - 1])
+        if rng.random() < 0.9:
+            emit(["allow", pid])
+        if rng.random() < 0.5:
+            emit(["hasheq", x, x])
+        emit(["isrun", x])
+        emit(["hasheq", x, x])
+        if pid in sh.table:
+            emit(["new", pid])
+            q = len(sh.objs) - 1
+            emit(["eq", x, q])
+            emit(["hasheq", q, x])
+            emit(["eq", q, x])
+        emit(rng.choice([["isrun", x], ["set", x, gen_setter(rng)], ["iter"]]))
+        if regular is not None:
+            emit(["isrun", regular])
+            emit(["eq", regular, x])
+        emit(["isrun", x])
 
     def wait_motif():
         # wait() caches the exit code; afterwards the PID is recycled; then guarded calls
@@ -479,10 +544,12 @@ def gen_history(rng, n_events, flavour):
             emit(["iterstart"] if not sh.gens or rng.random() < 0.3 else ["iternext", rng.randrange(len(sh.gens))])
         elif r < 0.425:
             overlap_motif()
-        elif r < 0.435:
+        elif r < 0.43:
             orphan_motif()
-        elif r < 0.44:
+        elif r < 0.434:
             same_start_motif()
+        elif r < 0.44 or (flavour == "c02" and r < 0.45):
+            blind_motif()
         elif objs_n == 0:
             continue
         elif r < 0.455:
@@ -562,10 +629,10 @@ def gen_history(rng, n_events, flavour):
         feats.add("popen-set-reused")
     if sh.objs and any(x[0] == IMPORT_PID for x in sh.objs) and ("set-reused" in feats or "set-reused-after-gone" in feats):
         feats.add("import-pid")
-    order = ["wait-then-reuse", "iter-overlap", "race-toctou", "race-window", "race-empty-window", "oneshot-set-reused", "popen-set-reused", "set-reused-after-gone", "set-reused", "pid0", "set-gone", "set-zombie", "eq-same-pid-other-proc", "isrun-reused",
+    order = ["wait-then-reuse", "iter-overlap", "no-identity", "race-toctou", "race-window", "race-empty-window", "oneshot-set-reused", "popen-set-reused", "set-reused-after-gone", "set-reused", "pid0", "set-gone", "set-zombie", "eq-same-pid-other-proc", "isrun-reused",
              "clock", "eq-same-proc", "isrun-gone", "iter", "set-alive", "isrun-alive", "eq-other-pid"]
     if flavour == "c02":
-        order = ["iter-overlap", "popen-gone-child", "eq-other-pid-same-start", "eq-non-process", "eq-adjacent-ticks", "eq-same-pid-other-proc", "isrun-reused", "clock", "eq-same-proc", "isrun-gone", "set-reused", "iter",
+        order = ["no-identity", "iter-overlap", "popen-gone-child", "eq-other-pid-same-start", "eq-non-process", "eq-adjacent-ticks", "eq-same-pid-other-proc", "isrun-reused", "clock", "eq-same-proc", "isrun-gone", "set-reused", "iter",
                  "isrun-alive", "eq-other-pid", "set-gone", "set-alive"]
     cls = next((f for f in order if f in feats), "trivial")
     return {"kind": "hist", "cls": cls, "evs": evs}
@@ -601,6 +668,10 @@ def _kev_term(e):
         return "(Reap %s)" % G.z(e[1])
     if k == "clock":
         return "(ClockStep %s)" % G.z(e[1])
+    if k == "deny":
+        return "(Deny %s)" % G.z(e[1])
+    if k == "allow":
+        return "(Allow %s)" % G.z(e[1])
     raise ValueError(k)
 
 
@@ -681,8 +752,14 @@ def judge_history(case, coq, impl, spec_kinds, what):
         return Verdict("corr", "generator emitted a history that is not well formed")
     if not isinstance(impl, list) or len(impl) != len(case["evs"]):
         return Verdict("corr", "implementation run did not complete: %r" % (impl,))
+    said_false = set()
     for i, e in enumerate(case["evs"]):
         got = impl[i]
+        if e[0] == "isrun" and "isrun" in spec_kinds:
+            if got[0] == Val(False):
+                said_false.add(e[1])
+            elif got[0] == Val(True) and e[1] in said_false:
+                return Verdict("violation", "step %d %r: is_running() True after it had answered False for this object" % (i, e))
         if isinstance(got[0], dict) and got[0].get("t") == "BindingChanged" and "bind" in spec_kinds:
             return Verdict("violation", "step %d %r: object %d, still held by the caller, was rebound: pid/identity changed"
                            % (i, e, got[0]["a"][0]))
@@ -727,6 +804,17 @@ def impl_run(case, coq, env):
     state = {"nextinc": 0, "btime": BTIME0}
     log = []
 
+    denied = set()  # PIDs whose stat file cannot be read (EACCES)
+    import psutil._common as _pcommon
+    from psutil import _pslinux as _pl
+    real_open_binary = _pcommon.open_binary
+
+    def f_open_binary(fname, *a, **kw):
+        for pid in denied:
+            if fname == "%s/%d/stat" % (root, pid) and os.path.exists(fname):
+                raise PermissionError(errno.EACCES, "Permission denied", fname)
+        return real_open_binary(fname, *a, **kw)
+
     pending = []    # kernel events of the window of a "race" call, applied when psutil reaches its system call
 
     def flush_pending():
@@ -767,10 +855,12 @@ def impl_run(case, coq, env):
             raise psutil.TimeoutExpired(timeout, pid=pid, name=proc_name)
         return None
 
-    saved = [(_psposix, "wait_pid", _psposix.wait_pid), (os, "kill", os.kill), (cext_posix, "setpriority", cext_posix.setpriority),
+    saved = [(_pcommon, "open_binary", _pcommon.open_binary), (_pl, "open_binary", _pl.open_binary),
+             (_psposix, "wait_pid", _psposix.wait_pid), (os, "kill", os.kill), (cext_posix, "setpriority", cext_posix.setpriority),
              (cext, "proc_ioprio_set", cext.proc_ioprio_set), (cext, "proc_cpu_affinity_set", cext.proc_cpu_affinity_set),
              (resource, "prlimit", resource.prlimit)]
     _psposix.wait_pid = f_wait_pid
+    _pcommon.open_binary = _pl.open_binary = f_open_binary
     os.kill, cext_posix.setpriority = f_kill, f_setprio
     cext.proc_ioprio_set, cext.proc_cpu_affinity_set = f_ioprio, f_affinity
     resource.prlimit = f_prlimit
@@ -896,6 +986,10 @@ def impl_run(case, coq, env):
         elif k == "clock":
             state["btime"] += e[1]
             fp.set_btime(state["btime"])
+        elif k == "deny":
+            denied.add(e[1])
+        elif k == "allow":
+            denied.discard(e[1])
         else:
             raise ValueError(k)
 
